@@ -172,7 +172,7 @@ def classify_ck(c, o):
         cls = "starts_differ" if starts_differ else "same_starts"
     else:
         cls = "absent_stop" if absent_stop else ("starts_differ" if starts_differ else "same_starts")
-    return clause, dict(clause=clause, cls=cls, impl=o["o"])
+    return clause, dict(clause=clause, cls=cls)
 
 
 def ck_size(c):
@@ -619,7 +619,7 @@ def emit_fit(pairs):
         f"{{| ft_c := {c_fconf(c)};\n     ft_sims := {core.clist(c_frame3(f) for f in sim_frames(c))};\n"
         f"     ft_obs := {c_obs(o)} |}}" for c, o in pairs)
     return (HEAD + f"Definition cases : list fit_case := [\n  {body}\n].\n"
-            "Eval vm_compute in fit_mismatches src_checker src_calls cases.\nEval vm_compute in fit_violations cases.\n")
+            "Eval vm_compute in fit_mismatches src_checker src_calls src_weights cases.\nEval vm_compute in fit_violations cases.\n")
 
 
 def fit_flags(c):
@@ -884,6 +884,26 @@ def leg_calib(ctx, cases):
     ctx.cov["champion_islands_checked"] = len(rows)
 
 
+CLAUSE_ORDER = ["checker_sound", "checker_complete", "fitness_value", "champion", "resimulation", "range_rejected",
+                "range_accepted"]
+
+
+def order_violations(ctx: Ctx):
+    """core.finish reports the first five distinct input classes: put one class of every clause first (round-robin
+    over the clauses, the constructor-level duplicates of checker classes last) so that distinct defects are all shown"""
+    seen, ranked = {}, []
+    for i, v in enumerate(ctx.violations):
+        key = json.dumps(v.sig, sort_keys=True) + v.clause
+        per = seen.setdefault(v.clause, [])
+        if key not in per:
+            per.append(key)
+        late = 10 if v.clause.startswith("range_") and v.sig.get("cls") in ("starts_differ", "absent_stop") else 0
+        ci = CLAUSE_ORDER.index(v.clause) if v.clause in CLAUSE_ORDER else len(CLAUSE_ORDER)
+        ranked.append((per.index(key) + late, ci, i, v))
+    ranked.sort(key=lambda x: x[:3])
+    ctx.violations[:] = [x[3] for x in ranked]
+
+
 def new_violations(ctx: Ctx):
     fs = core.load_findings(ctx.prop)
     return [v for v in ctx.violations if not any(core.finding_matches(e, v) for e in fs)]
@@ -952,6 +972,7 @@ def run(ctx: Ctx):
         ctx.sample(dict(checker=c, observed=o))
     if ctx.broken and not new_violations(ctx):
         search(ctx)
+    order_violations(ctx)
 
 
 def search(ctx: Ctx):
